@@ -244,7 +244,7 @@ def worker(item):
                     'frame': {'name': 'PDU1 data', 'pf': 0xD0, 'da': das[0], 'sa': FOREIGN_SA}})
     elif kind == 'pfsweep':
         # every PDU format x {owned CA address, integer-listener address, predicate address, unowned, null, global}
-        _k, dll, ci, seed = item
+        _k, dll, ci, seed = item[:4]
         cfg = CONFIGS[ci]
         sc = {'kind': 'pfsweep', 'dll': dll, 'cfg': ci}
         c = Cfg(dll, cfg)
@@ -252,7 +252,7 @@ def worker(item):
             proto = {0xEA, 0xEE, 0xEC, 0xEB} | ({0x4D, 0x4E, 0x25} if dll == 'j1939-22' else set())
             for pf in range(256):
                 cls = 'proto' if pf in proto else ('pdu2' if pf >= 240 else 'ord')
-                for da in (0x10, 0x20, INT_ADDR, 0x60, 0x33, 0xFE, 0xFF):
+                for da in (item[4] if len(item) > 4 else (0x10, 0x20, INT_ADDR, 0x60, 0x33, 0xFE, 0xFF)):
                     for dp in (0, 1):
                         data = [pf & 0xFF, 2, 3, 4, 5, 6, 7, 8] if pf not in (0x25,) else [0x40, 0xD0, 0x00, 4, 1, 2, 3, 4]
                         dirty = eval_frame(c, 'PF %d' % pf, pf | (dp << 8), da, FOREIGN_SA, data, cls, acc, sc)
@@ -450,6 +450,11 @@ def run(tier, seed):
         for ci in ((2, 4, 7) if quick else range(len(CONFIGS))):
             if not any(s == 'W' for s, _a in CONFIGS[ci]['cas']):
                 items.append(('pfsweep', dll, ci, seed))
+        if not quick:
+            # thorough: every PDU format x every destination (x data page) for three configurations
+            for ci in (2, 4, 7):
+                for lo in range(0, 256, 16):
+                    items.append(('pfsweep', dll, ci, seed, list(range(lo, lo + 16))))
         for wins in ((1, 1), (2, 3), (255, 255)):
             items.append(('bystander', dll, wins, seed))
         items.append(('dynamic', dll, seed))
